@@ -207,6 +207,8 @@ pub fn for_each_seq(letters: &[u8], depth: usize, prefix: &[u8], mut f: impl FnM
 pub struct Exec<K: Kit> {
     pub calls: Vec<(Result<Vec<K::S>, PlanningError>, usize)>,
     pub construct: Option<Result<(), PlanningError>>,
+    /// calls from this index on answer a REPLACED problem (PRM set_problem_definition): its start and goal
+    pub alt: Option<(usize, K::S, std::sync::Arc<crate::seams::HGoal<K>>)>,
 }
 
 pub const LONG: Duration = Duration::from_secs(3600);
@@ -241,15 +243,25 @@ pub fn run_history_split<K: Kit>(sc: &Scenario, seq: &[u8], logging: bool, split
                     let _ = rig.drv.construct_roadmap();
                 }
                 calls.push((rig.drv.solve(LONG), 0));
+                // ... and the roadmap is reused for a replaced problem (reverse direction: start at
+                // the goal sample, goal around the old start): the new start connection is a fresh edge
+                let p2_start = rig.goal.samples[0].clone();
+                let dist = crate::scen::dist_fn::<K>(&sc.spec);
+                let p2_goal = std::sync::Arc::new(crate::seams::HGoal::<K>::new(vec![(rig.start.clone(), sc.goal_balls[0].1)], vec![rig.start.clone()], dist));
+                let pd2 = std::sync::Arc::new(crate::drv::Pd::<K> { space: rig.space.clone(), start_states: vec![p2_start.clone()], goal: p2_goal.clone() });
+                rig.drv.set_problem_definition(pd2);
+                let at = calls.len();
+                calls.push((rig.drv.solve(LONG), 0));
+                return Exec { calls, construct: Some(c), alt: Some((at, p2_start, p2_goal)) };
             }
-            Exec { calls, construct: Some(c) }
+            Exec { calls, construct: Some(c), alt: None }
         } else if split == 0 || split >= seq.len() {
-            Exec { calls: rig.feed(seq), construct: None }
+            Exec { calls: rig.feed(seq), construct: None, alt: None }
         } else {
             let mut calls = rig.feed(&seq[..split]);
             // only a history whose first part was consumed entirely has its boundary at `split`
             calls.extend(rig.feed(&seq[split..]));
-            Exec { calls, construct: None }
+            Exec { calls, construct: None, alt: None }
         }
     })?;
     Ok((rig, exec))
